@@ -1662,7 +1662,9 @@ class _TotalJacInfo(object):
                             ln_solver = model._linear_solver
                             with model._scaled_context_all():
                                 model._linearize(sub_do_ln=ln_solver._linearize_children())
-                            ln_solver._linearize()
+                                # the solver's linearization (e.g. DirectSolver assembling its matrix
+                                # by matrix-vector products) also assumes a scaled model
+                                ln_solver._linearize()
                         finally:
                             model._tot_jac = None
 
